@@ -3,6 +3,7 @@ package main
 import (
 	"encoding/json"
 	"flag"
+	"math"
 	"math/big"
 	"math/rand"
 	"strconv"
@@ -317,6 +318,22 @@ func routeReal(args []string) int {
 		}
 		_ = span
 		a := geom.Point{coord(g.dg.MinX), coord(g.dg.MinY)}
+		if rng.Intn(6) == 0 {
+			// on a non-round grid the pixel grid is narrower than the extent by the reported deviation, so its middle border lies
+			// half the deviation left of / below the middle of the extent: an end point inside that sliver (in the right / upper
+			// half of the grid, in the left / lower half of the extent), and on the middle line itself
+			dev := g.deviation(z)
+			if !math.IsNaN(dev) {
+				midX, _ := new(big.Rat).Add(g.dg.MinX, new(big.Rat).Quo(g.dg.Span0, big.NewRat(2, 1))).Float64()
+				midY, _ := new(big.Rat).Add(g.dg.MinY, new(big.Rat).Quo(g.dg.Span0, big.NewRat(2, 1))).Float64()
+				f := []float64{0, 0.25, 0.45, 0.55}[rng.Intn(4)]
+				if rng.Intn(2) == 0 {
+					a[0] = midX - f*dev
+				} else {
+					a[1] = midY - f*dev
+				}
+			}
+		}
 		var b geom.Point
 		if rng.Intn(2) == 0 { // a short edge of a few pixels
 			pf, _ := pix.Float64()
